@@ -162,7 +162,7 @@ Fixpoint crun_m (st : cst) (ms : list (bool * frame)) : option (cst * list act) 
   end.
 Definition actcode (a : act) : Z := match a with SendSrv b => blen b | RelayLoop => -1 | RecvOnce => -2 | SynthReady => -3 | Dropped _ => -4 | DroppedBuf _ => -5 end.
 Definition cobs (r : option (cst * list act)) := match r with Some (st, acts) => (1, map actcode acts, ck (sent acts), blen (sent acts), Z.of_nat (length (ext st)), blen (cbuf st)) | None => (0, [], 0, 0, 0, 0) end.
-Definition pobs (r : list frame * bytes) := (map (fun f => (fst f, blen (snd f), ck (snd f))) (fst r), snd r, bad_header (snd r)).
+Definition pobs (r : list frame * bytes) := (map (fun f => (fst f, blen (snd f), ck (snd f))) (fst r), (blen (snd r), ck (snd r)), bad_header (snd r)).
 """
 
 
@@ -248,7 +248,8 @@ def check_framing(run, relayio, quick, samples, distinct):
         cuts = [x for x in c["cuts"] if 0 < x < len(d)]
         segs = [d[a:b] for a, b in zip([0] + cuts, cuts + [len(d)])]
         exprs.append("(pobs (parse_avail %s), pobs (feed_all [%s]))" % (coq_bytes_rle(d), "; ".join(coq_bytes_rle(s) for s in segs)))
-    vals = vlib.coq_eval("c03a", PREAMBLE, exprs, shard=max(20, len(exprs) // 16 + 1))
+    # vlib.coq_eval reads a shard's output only after coqc exited: keep every shard's output far below the 64 KiB pipe buffer
+    vals = vlib.coq_eval("c03a", PREAMBLE, exprs, shard=40)
     n = 0
     for c, r, v in zip(cases, real, vals):
         n += 1
@@ -258,7 +259,7 @@ def check_framing(run, relayio, quick, samples, distinct):
         for h in r["frames"]:
             fb = bytes.fromhex(h)
             rf.append((fb[0], len(fb) - 5, ck(fb[5:])))
-        model_end = "eof" if not mp else ("refused" if mbad else "eof_in_frame")
+        model_end = "eof" if mp[0] == 0 else ("refused" if mbad else "eof_in_frame")
         real_end = {"bad_length": "refused", "panic": "refused"}.get(r["end"], r["end"])
         pyf, pyrest = split_frames(d)
         distinct.add(("framing", tuple((f[0], f[1]) for f in mf), model_end, tuple(c["cuts"])))
@@ -268,7 +269,7 @@ def check_framing(run, relayio, quick, samples, distinct):
             why = "read_message and parse_avail disagree"
         elif (mf, mp, mbad) != (sf, sp, sbad):
             why = "segment-wise reader (feed_all) differs from parse_avail on the concatenation"
-        elif [tuple(x) for x in mf] != [(ord(t), len(b), ck(b)) for t, b in pyf] and model_end != "refused":
+        elif ([tuple(x) for x in mf] != [(ord(t), len(b), ck(b)) for t, b in pyf] or tuple(mp) != (len(pyrest), ck(pyrest))) and model_end != "refused":
             why = "python framing oracle differs from the model"
         if why:
             # model-free monitor: does read_message itself mis-frame?  (python oracle on the same bytes)
@@ -719,7 +720,7 @@ def check_wire(run, wire, quick, samples, distinct, known_ids):
             run.violation("counterexample", "%s reproduces and is not listed as known: %s" % (k, s["problem"]), {"input": {"kind": "wire", "scenario": strip(s)}, "monitor": s["problem"]})
     # the model on the same exchanges
     run.log("wire: monitors done, evaluating the model on %d scenarios" % len(exprs))
-    vals = vlib.coq_eval("c03b", PREAMBLE, exprs, shard=max(4, len(exprs) // 16 + 1))
+    vals = vlib.coq_eval("c03b", PREAMBLE, exprs, shard=min(60, max(4, len(exprs) // 16 + 1)))
     run.log("wire: model evaluated")
     for si, v in zip(idx, vals):
         s = scns[si]
@@ -822,6 +823,15 @@ def check(run):
                        "Notice/ParameterStatus interleavings and unsolicited frames after ReadyForQuery, ErrorResponse in mid-stream, COPY OUT, COPY IN with CopyDone/CopyFail and chunks around the client threshold, portal suspension, "
                        "simple / extended / pipelined requests, TCP cuts on client->pgcat and backend->pgcat writes; distinct = distinct (tag sequence, body lengths) reply streams + distinct framing cases")
     run.cov["samples"] = samples[:6]
+    if not quick and model_ok and not run.violations:
+        # release build of pgcat (wrapping instead of panicking arithmetic in read_message's length handling)
+        ok, blog, rb = vlib.cargo_build(["relayio"], release=True, timeout=2400)
+        if ok:
+            n = check_framing(run, rb["relayio"], True, samples, distinct)
+            run.cov["evaluations"] += n
+            run.cov["release_build_framing_cases"] = n
+        else:
+            run.broken.append("release build of the harness failed: " + blog[-400:])
     if not quick and proof_ok:
         vlib.coqchk(run, ["PV.Relay.Props"])
 
